@@ -121,9 +121,14 @@ def lane_seq(a, spec):
                             a.v("handout-of-foreign-key", "handed out a key the wallet has no secret for", w)
                 elif op == "restore" and active:
                     pk = rng.choice(sorted(active))
-                    ops.append(["restore", pk.hex()])
-                    wallet.restore_annotated_public_key(pk, model["ann"][pk])
+                    # the annotation passed along is the recorded one, or -- as when the miner gives back a key it was handed
+                    # from an exhausted wallet (a key in use under an earlier annotation) -- another one
+                    ann = model["ann"][pk] if rng.random() < 0.6 else "reserved for potentially mined block"
+                    ops.append(["restore", pk.hex(), ann])
+                    wallet.restore_annotated_public_key(pk, ann)
                     a.inc("restores")
+                    if ann != model["ann"][pk]:
+                        a.inc("restores_with_other_annotation")
                     active.discard(pk)
                     del model["ann"][pk]
                     model["unused"].append(pk)
@@ -183,6 +188,11 @@ def lane_seq(a, spec):
         a.inconclusive.append("icontract invariant on Wallet never evaluated")
 
 
+def nodekit_quiet(fn, *args):
+    from skv import nodekit
+    return nodekit.quiet(fn, *args)
+
+
 # ------------------------------------------------------------------------------ balance lane
 def lane_balance(a, spec):
     env.boot()
@@ -199,8 +209,12 @@ def lane_balance(a, spec):
                 cut = rng.randint(0, len(ks))
                 wallet = wm.Wallet({pk: sk for sk, pk in ks}, [pk for _s, pk in ks[:cut]], {pk: "n" for _s, pk in ks[cut:]})
                 for _h in range(rng.randint(0, 2)):
-                    if wallet.unused_public_keys:
-                        wallet.get_annotated_public_key("x")
+                    if wallet.unused_public_keys or (wallet.keypairs and rng.random() < 0.5):
+                        # (with no unused key left the wallet hands out a key that is in use, as for the miner)
+                        pk = nodekit_quiet(wallet.get_annotated_public_key, "x")
+                        if rng.random() < 0.4 and pk in wallet.public_key_annotations:
+                            wallet.restore_annotated_public_key(pk, rng.choice(["x", "reserved for potentially mined block"]))
+                            a.inc("balance_after_restore")
                 a.n += 1
                 a.inc("balances_compared")
                 want = sum(v for (v, k) in led.values() if k in wallet.keypairs)
@@ -409,7 +423,9 @@ def finalize(m, tier):
                 "inside the region (counted)",
         "floors": [("handouts", c.get("handouts", 0), 500), ("loads", c.get("loads", 0), 100),
                    ("continued_with_reloaded_wallet", c.get("continued_with_reloaded_wallet", 0), 50),
-                   ("balances_compared", c.get("balances_compared", 0), 100), ("crash points landed", landed, 30),
+                   ("balances_compared", c.get("balances_compared", 0), 100),
+                   ("restores_with_other_annotation", c.get("restores_with_other_annotation", 0), 30),
+                   ("balance_after_restore", c.get("balance_after_restore", 0), 20), ("crash points landed", landed, 30),
                    ("crash_left_old_wallet", c.get("crash_left_old_wallet", 0), 10),
                    ("crash_left_new_wallet", c.get("crash_left_new_wallet", 0), 3),
                    ("address_printed_before_kill", c.get("address_printed_before_kill", 0), 1),
